@@ -112,7 +112,7 @@ func (b *streamableBE) exec(o op) string {
 		switch r.Status {
 		case 200:
 			if st := b.streams[*o.S]; st != nil {
-				st.Ended(ceiling)
+				endedOrDegrade(st)
 				b.old[*o.S] = append(b.old[*o.S], st)
 				delete(b.streams, *o.S)
 			}
@@ -129,7 +129,7 @@ func (b *streamableBE) exec(o op) string {
 		switch status {
 		case 200:
 			if prev := b.streams[*o.S]; prev != nil {
-				prev.Ended(ceiling) // the server ends the stream it replaces
+				endedOrDegrade(prev) // the server ends the stream it replaces
 				b.old[*o.S] = append(b.old[*o.S], prev)
 			}
 			b.streams[*o.S] = st
@@ -653,4 +653,12 @@ func (b *stdioBE) close() {
 	}
 	b.cancel()
 	b.in.Close()
+}
+
+// endedOrDegrade waits for the server to end a stream; a stream that is not ended within the ceiling marks the run degraded
+// (later waits are cut short).
+func endedOrDegrade(st *hk.Stream) {
+	if !st.Ended(waitCeiling()) {
+		degraded.Store(true)
+	}
 }
